@@ -79,7 +79,7 @@ class C14(Property):
     ASSUMPTIONS = ["no default handler is replaced once registered", "handlers are pure functions returning their tag"]
     REAL = ["labrea/runtime.py, labrea/cache.py:disabled, labrea/logging.py:disabled (unmodified)"]
     STUBS = ["request types T0..T2 and their handlers (return a tag / raise)"]
-    QUICK = {"runs": 200000, "wall": 30}
+    QUICK = {"runs": 400000, "wall": 35}
     THOROUGH = {"runs": 3000000, "wall": 420}
     NONTRIVIAL_MEASURE = "nontrivial_history"
 
